@@ -9,7 +9,7 @@ import (
 )
 
 type Finding struct {
-	Property string `json:"property"`
+	Properties []string `json:"properties"`
 	ID       string `json:"id"`
 	Status   string `json:"status"` // "open" | "fixed"
 	What     string `json:"what"`
